@@ -3,10 +3,10 @@ META = dict(
     level='proof',
     level_text='For stride / compute_strides / compute_offset / compute_indices / product the fixed-size instantiation (nmtools_array<size_t,3>: the meta::template_for branches, different source text) and a mixed fixed/bounded instantiation are proved against literally the same postcondition predicates as the bounded kind (utl::static_vector<size_t,8>, for-loop branches, property C01). Since each postcondition fixes the logical result as a function of the logical inputs, instantiations that all satisfy it agree with each other.',
     level_note='Only run-time container kinds (fixed std::array, bounded static_vector, mixed). Compile-time constant / clipped index kinds, the 15 ndarray shape x buffer kinds, Boost containers and gcc-vs-clang are facts about template instantiation for which no function contract exists (not applicable part).',
-    trusted_base=['clang 14 front end', 'engine/cxx2c.py', 'cbmc 6.11.0 --dfcc', 'C model of std::array'],
+    trusted_base=['clang 14 front end', 'engine/cxx2c.py', 'cbmc 6.11.0 --dfcc', 'C model of std::array', 'bounded C model of std::vector (inline array of 8 elements + size; resize value-initialises; exceeding 8 is an assertion failure of the model)'],
     assumptions=['UF mode for * / % with the axioms of models/prelude.h', 'kind F fixed at N=3 (the template_for expansion is per N)'],
     explanation='Kind F (std::array<size_t,3>) takes the meta::template_for branches, kind B (utl::static_vector<size_t,8>) the run-time for branches; both are discharged against the same post_ predicates of spec/c01.h (kind F through sv_of_a3).',
-    not_covered=['constant (ct) and clipped index kinds (values computed in the type by resolve_optype)', 'dynamic lists (std::vector / utl::vector)', 'ndarray kinds, Boost containers, NMTOOLS_DISABLE_STL configuration', 'compile-time vs run-time evaluation (constexpr) equality'],
+    not_covered=['constant (ct) and clipped index kinds (values computed in the type by resolve_optype)', 'dynamic lists longer than 8 (std::vector is a bounded model of capacity 8 in the extracted C)', 'ndarray kinds, Boost containers, NMTOOLS_DISABLE_STL configuration', 'compile-time vs run-time evaluation (constexpr) equality'],
 )
 UNITS = [
     Unit('F.stride.uf', 'c09', 'verif_f_stride', mode='uf', unwind=10, clause='fixed-size kind gives the same stride as the bounded kind'),
@@ -17,4 +17,10 @@ UNITS = [
     Unit('F32.compute_offset.uf', 'c09', 'verif_f32_compute_offset', mode='uf', unwind=10, clause='fixed-size kind with 32-bit elements: same offset (products carried out in size_t)'),
     Unit('M32.compute_offset.uf', 'c09', 'verif_m32_compute_offset', mode='uf', unwind=10, clause='mixed 32-bit fixed / bounded kinds: same offset'),
     Unit('M.compute_offset.uf', 'c09', 'verif_m_compute_offset', mode='uf', unwind=10, clause='mixed fixed/bounded kinds: same offset'),
+    # kind D: dynamic lists (std::vector, bounded model of capacity 8); conversion loops of the wrapper glue are unwound completely
+    Unit('D.stride.uf', 'c09', 'verif_d_stride', mode='uf', unwind=10, unwind_loops={'verif_to_': 10}, clause='dynamic-list kind gives the same stride as the bounded kind'),
+    Unit('D.compute_strides.uf', 'c09', 'verif_d_compute_strides', mode='uf', unwind=10, unwind_loops={'verif_to_': 10}, clause='dynamic-list kind: same strides'),
+    Unit('D.compute_offset.uf', 'c09', 'verif_d_compute_offset', mode='uf', unwind=10, unwind_loops={'verif_to_': 10}, clause='dynamic-list kind: same offset'),
+    Unit('D.compute_indices.uf', 'c09', 'verif_d_compute_indices3', mode='uf', unwind=10, unwind_loops={'verif_to_': 10}, clause='dynamic-list kind: same indices'),
+    Unit('D.product.uf', 'c09', 'verif_d_product', mode='uf', unwind=10, unwind_loops={'verif_to_': 10}, clause='dynamic-list kind: same product'),
 ] + import_units('C01', names=['stride.uf', 'compute_strides.uf', 'compute_offset.uf', 'compute_indices.uf', 'product.uf'], clause='bounded kind (reference instantiation)')
